@@ -24,6 +24,8 @@ pub struct Hostile {
     byte_total: u64,
     /// every byte of the fixed exchanges replaced by a valid multi-byte UTF-8 character
     splice_total: u64,
+    /// every reply cut at every offset and continued with a row count of 255 and tens of thousands of tiny strings
+    amp_total: u64,
     broken_seeds: Vec<String>,
 }
 
@@ -54,7 +56,8 @@ impl Hostile {
         let trunc_total = fixed.iter().map(|f| f.len + 1).sum();
         let byte_total = fixed.iter().map(|f| f.len * BYTE_VALUES.len() as u64).sum();
         let splice_total = fixed.iter().map(|f| f.len).sum();
-        Self { id, eps, fixed, trunc_total, byte_total, splice_total, broken_seeds: broken }
+        let amp_total = fixed.iter().map(|f| f.len).sum();
+        Self { id, eps, fixed, trunc_total, byte_total, splice_total, amp_total, broken_seeds: broken }
     }
 
     fn n_random(&self, tier: Tier) -> u64 { tier.pick(250_000, 12_000_000) }
@@ -137,7 +140,7 @@ impl Check for Hostile {
     }
     fn rule(&self) -> String {
         format!(
-            "{} public entry points (every protocol query, per-game wrappers, master-server service, generic dispatch for every GAMES entry) x settings (retries 0-2, gather toggles, app-id check, timeouts None/Some) run against static hostile reply scripts derived from well-formed exchanges of the server models: (1) truncation of every reply at every byte offset for {} fixed seed exchanges, (2) every byte of those exchanges set to each of {:?}, (3) random mutations (byte/field extremes, extreme decimals, deleted terminators, VarInt inflation, invalid and multi-byte text, compressed split answers whose valid bzip2 stream inflates to 24-40 MiB behind a small declared size, dropped/duplicated/reordered/empty/64 KiB datagrams, repeated challenge streams, random tails, random datagrams, fragment-header values, silence from any point). non-trivial = the client consumed at least one scripted datagram; distinct by (entry point, settings, script)",
+            "{} public entry points (every protocol query, per-game wrappers, master-server service, generic dispatch for every GAMES entry) x settings (retries 0-2, gather toggles, app-id check, timeouts None/Some) run against static hostile reply scripts derived from well-formed exchanges of the server models: (1) truncation of every reply at every byte offset for {} fixed seed exchanges, (2) every byte of those exchanges set to each of {:?}, (2b) every byte replaced by a 2/3/4-byte UTF-8 character; every reply cut at every offset and continued as a 60 kB datagram of a 255 row count and tiny strings, (3) random mutations (byte/field extremes, extreme decimals, deleted terminators, VarInt inflation, invalid and multi-byte text, compressed split answers whose valid bzip2 stream inflates to 24-40 MiB behind a small declared size, dropped/duplicated/reordered/empty/64 KiB datagrams, repeated challenge streams, random tails, random datagrams, fragment-header values, silence from any point). non-trivial = the client consumed at least one scripted datagram; distinct by (entry point, settings, script)",
             self.eps.len(),
             self.fixed.len(),
             BYTE_VALUES
@@ -155,7 +158,7 @@ impl Check for Hostile {
         }
         v
     }
-    fn total_cases(&self, tier: Tier) -> u64 { self.trunc_total + self.byte_total + self.splice_total + self.n_random(tier) }
+    fn total_cases(&self, tier: Tier) -> u64 { self.trunc_total + self.byte_total + self.splice_total + self.amp_total + self.n_random(tier) }
     fn case_label(&self, _tier: Tier, idx: u64) -> String {
         if idx < self.trunc_total {
             "truncation-sweep".into()
@@ -163,6 +166,8 @@ impl Check for Hostile {
             "byte-sweep".into()
         } else if idx < self.trunc_total + self.byte_total + self.splice_total {
             "utf8-splice-sweep".into()
+        } else if idx < self.trunc_total + self.byte_total + self.splice_total + self.amp_total {
+            "amplification-sweep".into()
         } else {
             "random-mutation".into()
         }
@@ -225,6 +230,31 @@ impl Check for Hostile {
             return;
         }
         idx -= self.splice_total;
+        if idx < self.amp_total {
+            // a reply that continues, from any offset on, as "255 rows" and ~30 000 two-byte strings in a 60 kB datagram:
+            // what a parser that multiplies counts may do with it is bounded by the bytes the client actually reads
+            for f in &self.fixed {
+                if idx < f.len {
+                    let mut s = f.script.clone();
+                    if let Some((c, j, k)) = locate(&s, idx as usize) {
+                        s[c][j].truncate(k);
+                        s[c][j].extend([0x00, 0xff]);
+                        while s[c][j].len() < 60_000 {
+                            s[c][j].extend(b"a\0");
+                        }
+                        s[c][j].push(0);
+                    }
+                    cx.count("amplification-sweep-cases");
+                    let ep = self.eps[f.ep].clone();
+                    let st = f.settings.clone();
+                    self.judge(cx, &ep, &st, &s, "amplification-sweep");
+                    return;
+                }
+                idx -= f.len;
+            }
+            return;
+        }
+        idx -= self.amp_total;
         // random: fresh seed exchange, random settings, 1-3 mutations
         let ep = self.eps[(idx % self.eps.len() as u64) as usize].clone();
         let settings = Settings::gen(&mut cx.rng);
@@ -273,6 +303,8 @@ impl Check for Hostile {
             "byte_sweep_planned": self.byte_total,
             "utf8_splice_sweep_cases": m.counters.get("utf8-splice-sweep-cases"),
             "utf8_splice_sweep_planned": self.splice_total,
+            "amplification_sweep_cases": m.counters.get("amplification-sweep-cases"),
+            "amplification_sweep_planned": self.amp_total,
         })
     }
     fn budget_s(&self, tier: Tier) -> u64 { tier.pick(150, 2400) }
